@@ -63,6 +63,8 @@ type Engine struct {
 	// being abstracted, and its writes count as its callers' for write-set declarations.
 	baseline        map[string]bool
 	autoInlineCache map[*ssa.Function]bool
+	constTables     map[*ssa.Global][][2]ssa.Value
+	constTableKnown map[*ssa.Global]bool
 	Rel             string
 }
 
@@ -783,7 +785,7 @@ func (e *Engine) autoInline(fn *ssa.Function) bool {
 		for _, in := range b.Instrs {
 			n++
 			switch in := in.(type) {
-			case *ssa.Go, *ssa.Send, *ssa.Select, *ssa.MakeChan:
+			case *ssa.Send, *ssa.Select:
 				return false
 			case *ssa.UnOp:
 				if in.Op == token.ARROW {
@@ -820,4 +822,104 @@ func (e *Engine) reachesFn(from, target *ssa.Function, depth int) bool {
 		}
 	}
 	return false
+}
+
+// constTable: v is a load of a package-level map variable that is a constant table: the
+// variable is never assigned outside init, init stores into it one map built by a literal
+// whose keys and values are constants of basic type, and every load of the variable anywhere
+// in the package is used only for lookups and len (no update, delete, range, call argument,
+// store). Returns the (key, value) constants in initialisation order, or nil.
+func (e *Engine) constTable(v ssa.Value) [][2]ssa.Value {
+	u, ok := v.(*ssa.UnOp)
+	if !ok || u.Op != token.MUL {
+		return nil
+	}
+	g, ok := u.X.(*ssa.Global)
+	if !ok || g.Pkg != e.Pkg || !e.roGlobals[g] {
+		return nil
+	}
+	if e.constTables == nil {
+		e.constTables = map[*ssa.Global][][2]ssa.Value{}
+		e.constTableKnown = map[*ssa.Global]bool{}
+	}
+	if e.constTableKnown[g] {
+		return e.constTables[g]
+	}
+	e.constTableKnown[g] = true
+	mt, ok := deref(g.Type()).Underlying().(*types.Map)
+	if !ok {
+		return nil
+	}
+	basic := func(t types.Type) bool { _, ok := t.Underlying().(*types.Basic); return ok }
+	if !basic(mt.Key()) || !basic(mt.Elem()) {
+		return nil
+	}
+	// every load is read-only
+	for _, fn := range e.funcsByKey {
+		for _, b := range fn.Blocks {
+			for _, in := range b.Instrs {
+				ld, ok := in.(*ssa.UnOp)
+				if !ok || ld.Op != token.MUL || ld.X != ssa.Value(g) {
+					continue
+				}
+				for _, r := range *ld.Referrers() {
+					switch r := r.(type) {
+					case *ssa.DebugRef:
+					case *ssa.Lookup:
+						if r.X != ssa.Value(ld) {
+							return nil
+						}
+					case *ssa.Call:
+						if b, ok := r.Call.Value.(*ssa.Builtin); !ok || b.Name() != "len" {
+							return nil
+						}
+					default:
+						return nil
+					}
+				}
+			}
+		}
+	}
+	// the initialiser
+	var mk *ssa.MakeMap
+	for _, m := range e.Pkg.Members {
+		fn, ok := m.(*ssa.Function)
+		if !ok || fn.Name() != "init" {
+			continue
+		}
+		for _, b := range fn.Blocks {
+			for _, in := range b.Instrs {
+				if st, ok := in.(*ssa.Store); ok && st.Addr == ssa.Value(g) {
+					if mk != nil {
+						return nil
+					}
+					mm, ok := st.Val.(*ssa.MakeMap)
+					if !ok {
+						return nil
+					}
+					mk = mm
+				}
+			}
+		}
+	}
+	if mk == nil {
+		return nil
+	}
+	var tbl [][2]ssa.Value
+	for _, r := range *mk.Referrers() {
+		switch r := r.(type) {
+		case *ssa.DebugRef, *ssa.Store:
+		case *ssa.MapUpdate:
+			_, kc := r.Key.(*ssa.Const)
+			_, vc := r.Value.(*ssa.Const)
+			if r.Map != ssa.Value(mk) || !kc || !vc {
+				return nil
+			}
+			tbl = append(tbl, [2]ssa.Value{r.Key, r.Value})
+		default:
+			return nil
+		}
+	}
+	e.constTables[g] = tbl
+	return tbl
 }
